@@ -49,10 +49,14 @@ type FaultScenario struct {
 
 const (
 	fKey  = "k"
-	fOld  = "old-value"
-	fNew  = "NEW"
 	fOldF = 0x11
 	fNewF = 0x22
+)
+
+// values spanning several chunks of the chunked handler (and several bufio reads everywhere)
+var (
+	fOld = "old-" + string(wire.GenValue(2400, 1))
+	fNew = "NEW-" + string(wire.GenValue(1300, 2))
 )
 
 func faultCmds(cfg Cfg) []wire.Op {
@@ -167,6 +171,13 @@ func RunFault(sc FaultScenario) (fs []Finding, trace string, n1, n2 int) {
 		n2 = a.L2c.NReq
 	}
 	closed := a.Ended
+	// a further command on the same connection, if the server kept it open: the backend streams
+	// must still be in sync
+	sameConn := false
+	if !a.Ended {
+		sameConn = true
+		a.Do(wire.Op{Kind: "get", Key: fKey, Opaque: 0x7100})
+	}
 	by.Do(wire.Op{Kind: "get", Key: "z", Opaque: 0x510})
 	byEnded := by.Ended
 	a.Hangup()
@@ -180,8 +191,15 @@ func RunFault(sc FaultScenario) (fs []Finding, trace string, n1, n2 int) {
 	ar := a.RepliesLenient()
 	br, _, _ := by.Replies()
 	fr, _, _ := f.Replies()
-	trace = fmt.Sprintf("cfg=%s prior=%s cmd=%s devs=%+v\n faulted reply: %s (connection closed by server: %v)\n bystander: %s | %s\n follow-up reads: %s | %s\n L1: %s\n L2: %s\n",
-		sc.Cfg, sc.Prior, cmd, sc.Devs, ar[0].Canon(), closed, br[0].Canon(), br[1].Canon(), fr[0].Canon(), fr[1].Canon(), dumpTier(w, 1), dumpTier(w, 2))
+	short := func(r wire.Reply) string {
+		s := r.Canon()
+		if len(s) > 120 {
+			s = s[:120] + "..."
+		}
+		return s
+	}
+	trace = fmt.Sprintf("cfg=%s prior=%s cmd=%s devs=%+v\n faulted reply: %s (connection closed by server: %v)\n bystander: %s | %s\n follow-up reads: %s | %s\n",
+		sc.Cfg, sc.Prior, opTag(cmd), sc.Devs, short(ar[0]), closed, short(br[0]), short(br[1]), short(fr[0]), short(fr[1]))
 
 	// (a) termination
 	hung, spun, _, _ := w.Diag()
@@ -211,7 +229,7 @@ func RunFault(sc FaultScenario) (fs []Finding, trace string, n1, n2 int) {
 		for _, h := range r.Hits {
 			got := fmt.Sprintf("%s/%x", h.Val, h.Flags)
 			if len(want) == 0 || got != want[0] {
-				add("wrong-value", fmt.Sprintf("faulted read returned %q, the key held %v", got, want))
+				add("wrong-value", fmt.Sprintf("faulted read returned %q", trunc40(got)))
 			}
 		}
 		exp := ApplyModel(modelWith(had), sc.Cfg.Proto, cmd)
@@ -247,6 +265,22 @@ func RunFault(sc FaultScenario) (fs []Finding, trace string, n1, n2 int) {
 		}
 	}
 	_ = mayMiss
+	if sameConn && len(ar) > 1 {
+		rr := ar[1]
+		switch {
+		case rr.Malformed != "" && !(a.Ended && strings.HasSuffix(rr.Malformed, "reply not terminated")):
+			add("same-connection-followup", "the next command on the faulted connection got a malformed reply: "+rr.Malformed)
+		case rr.Class == "values":
+			for _, h := range rr.Hits {
+				got := fmt.Sprintf("%s/%x", h.Val, h.Flags)
+				if !allowed[got] {
+					add("same-connection-followup", fmt.Sprintf("the next command on the faulted connection returned %q (acknowledged=%v)", trunc40(got), acked))
+				}
+			}
+		case rr.Class == "none" && !a.Cli.Closed() && !hung && !spun && rr.Errs == 0:
+			add("same-connection-followup", "the next command on the faulted connection got neither a reply nor a close")
+		}
+	}
 	for i, rr := range fr {
 		if rr.Class != "values" || rr.Malformed != "" {
 			if !hung && !spun {
@@ -261,11 +295,18 @@ func RunFault(sc FaultScenario) (fs []Finding, trace string, n1, n2 int) {
 				if acked && len(before) > 0 && got == before[0] {
 					cl = "stale-after-ack"
 				}
-				add(cl, fmt.Sprintf("read %d after the fault returned %q; acknowledged=%v, acceptable values %v or a miss", i, got, acked, keysOf(allowed)))
+				add(cl, fmt.Sprintf("read %d after the fault returned %q; acknowledged=%v", i, trunc40(got), acked))
 			}
 		}
 	}
 	return
+}
+
+func trunc40(s string) string {
+	if len(s) > 40 {
+		return s[:40] + fmt.Sprintf("..(%d)", len(s))
+	}
+	return s
 }
 
 func keysOf(m map[string]bool) []string {
